@@ -163,6 +163,23 @@ func (prog *Program) scanGlobals() {
 			ast.Inspect(f, func(n ast.Node) bool {
 				switch x := n.(type) {
 				case *ast.CallExpr:
+					// g.M(...) with a pointer-receiver method on a package-level struct value: implicit &g
+					if sel, ok := ast.Unparen(x.Fun).(*ast.SelectorExpr); ok {
+						if s := info.Selections[sel]; s != nil && s.Kind() == types.MethodVal {
+							if m, ok := s.Obj().(*types.Func); ok {
+								if _, ptrRecv := m.Type().(*types.Signature).Recv().Type().(*types.Pointer); ptrRecv {
+									if _, isPtr := info.TypeOf(sel.X).Underlying().(*types.Pointer); !isPtr {
+										if id, ok := ast.Unparen(sel.X).(*ast.Ident); ok {
+											if v, ok := info.ObjectOf(id).(*types.Var); ok && v.Pkg() != nil && v.Parent() == v.Pkg().Scope() {
+												prog.AddrTakenGlobals[v] = true
+												prog.MutableGlobals[v] = true
+											}
+										}
+									}
+								}
+							}
+						}
+					}
 					// a global map passed to any function (including delete) may be written
 					for _, a := range x.Args {
 						if g := globalVarOf(a, info); g != nil {
